@@ -27,7 +27,6 @@ use crate::{
 };
 use chrono::{Duration, Local};
 use config::Config;
-use itertools::{Either, Itertools};
 use kdam::{Bar, BarExt};
 use rayon::{current_num_threads, prelude::*};
 use routee_compass_core::algorithm::search::search_instance::SearchInstance;
@@ -364,7 +363,7 @@ impl CompassApp {
         let input_plugin_result: (Vec<_>, Vec<_>) = queries
             .par_chunks(plugin_chunk_size)
             .map(|queries| {
-                let result: (Vec<Vec<Value>>, Vec<Value>) = queries
+                let (processed, errors): (Vec<Vec<Value>>, Vec<Vec<Value>>) = queries
                     .iter()
                     .map(|q| {
                         let inner_processed = apply_input_plugins(q, &self.input_plugins);
@@ -373,10 +372,9 @@ impl CompassApp {
                         }
                         inner_processed
                     })
-                    .partition_map(|r| match r {
-                        Ok(values) => Either::Left(values),
-                        Err(error_response) => Either::Right(error_response),
-                    });
+                    .unzip();
+                let result: (Vec<Vec<Value>>, Vec<Value>) =
+                    (processed, errors.into_iter().flatten().collect());
 
                 result
             })
@@ -576,26 +574,35 @@ pub fn run_batch_without_responses(
     Ok(Box::new(std::iter::empty::<Value>()))
 }
 
-/// helper that applies the input plugins to a query, returning the result(s) or an error if failed
+/// helper that applies the input plugins to a query, returning the resulting queries together
+/// with the error responses of the queries (the query itself, or some of the queries it was
+/// expanded into) for which a plugin failed
 pub fn apply_input_plugins(
     query: &serde_json::Value,
     plugins: &Vec<Arc<dyn InputPlugin>>,
-) -> Result<Vec<serde_json::Value>, serde_json::Value> {
+) -> (Vec<serde_json::Value>, Vec<serde_json::Value>) {
     let mut plugin_state = serde_json::Value::Array(vec![query.clone()]);
+    let mut errors: Vec<serde_json::Value> = vec![];
     for plugin in plugins {
         let p = plugin.clone();
         let op: in_ops::InputArrayOp = Rc::new(|q| p.process(q));
-        in_ops::json_array_op(&mut plugin_state, op)?
+        if let Err(error_response) = in_ops::json_array_op(&mut plugin_state, op, &mut errors) {
+            errors.push(error_response);
+            return (vec![], errors);
+        }
     }
     // the flatten step rejects a query that is not a JSON object, but reports it without
     // the query itself: make the error response echo the request it answers
-    let result = in_ops::json_array_flatten(&mut plugin_state).map_err(|mut error_response| {
-        if error_response.is_object() {
-            error_response["request"] = query.clone();
+    match in_ops::json_array_flatten(&mut plugin_state) {
+        Ok(result) => (result, errors),
+        Err(mut error_response) => {
+            if error_response.is_object() {
+                error_response["request"] = query.clone();
+            }
+            errors.push(error_response);
+            (vec![], errors)
         }
-        error_response
-    })?;
-    Ok(result)
+    }
 }
 
 // helper that applies the output processing. this includes
